@@ -227,6 +227,7 @@ type c45Run struct {
 	Ops    []c45Op
 	Images []c45Image
 	Second []c45Second
+	Faults []c45FaultRes
 	Err    string
 }
 
@@ -398,6 +399,13 @@ func c45RunPair(p c45Pair, everyByte bool) (run c45Run) {
 		}
 	}
 
+	// pristine copy of the state before the save (start of the fault-injected re-runs)
+	prevState := filepath.Join(root, "prevstate")
+	if err := c45CopyDir(live, prevState); err != nil {
+		run.Err = err.Error()
+		return
+	}
+
 	nimg := 0
 	snapshot := func(point string, op int, kind string, partial int, mutate func(dir string) error) {
 		os.RemoveAll(img)
@@ -434,6 +442,15 @@ func c45RunPair(p c45Pair, everyByte bool) (run c45Run) {
 			}
 			sec.After, sec.Third = point, name
 			run.Second = append(run.Second, sec)
+			if everyByte && partial < 0 && sec.Verdict == "" {
+				// thorough: the environment answers also for the second save of the history
+				fr, err := c45FaultedSaves(root, img, recovered, thirds[name], strings.Fields(sec.Ops), point, name)
+				if err != nil {
+					run.Err = "fault-injected second save: " + err.Error()
+					return
+				}
+				run.Faults = append(run.Faults, fr...)
+			}
 		}
 	}
 
@@ -500,6 +517,17 @@ func c45RunPair(p c45Pair, everyByte bool) (run c45Run) {
 	if fin := &run.Images[len(run.Images)-1]; fin.Verdict == "prev" && c45DiffCfg(prev, p.New) {
 		fin.Verdict = "lost:save-completed-but-file-is-still-previous"
 	}
+	// the same save again, once per single failing operation
+	var kinds []string
+	for _, o := range run.Ops {
+		kinds = append(kinds, o.Kind)
+	}
+	fr, ferr := c45FaultedSaves(root, prevState, prev, p.New, kinds, "", "")
+	if ferr != nil {
+		run.Err = "fault-injected save: " + ferr.Error()
+		return
+	}
+	run.Faults = append(run.Faults, fr...)
 	return
 }
 
@@ -551,6 +579,7 @@ func c45Judge(c *report.Check, p c45Pair, run c45Run) (bad int) {
 				map[string]any{"pair": p.Name})
 		}
 	}
+	bad += c45JudgeFaults(c, p, run.Faults)
 	if first == nil {
 		return bad
 	}
@@ -575,6 +604,8 @@ func c45(c *report.Check) {
 	dist := report.NewDistinct(10)
 	evals, bad, boundaries, partials := 0, 0, 0, 0
 	secondSaves, secondImages := 0, 0
+	faultRuns, faultImages := 0, 0
+	var faultSamples []map[string]any
 	var opSeqs []map[string]any
 	for _, p := range pairs {
 		run := c45RunPair(p, c.Thorough())
@@ -592,6 +623,19 @@ func c45(c *report.Check) {
 				v = "bad"
 			}
 			dist.See(p.Name+"|then-"+sec.Third+"|"+v, nil)
+		}
+		for _, f := range run.Faults {
+			evals += f.Images
+			faultRuns++
+			faultImages += f.Images
+			v := "ok"
+			if f.Verdict != "" {
+				v = "bad"
+			}
+			dist.See(p.Name+"|env-"+f.Class+"|save-returned-"+f.SaveErr+"|"+v, nil)
+			if len(faultSamples) < 6 && f.Third == "" && (len(faultSamples) == 0 || faultSamples[len(faultSamples)-1]["environment_answer"] != f.Fault) && p.Name == pairs[0].Name {
+				faultSamples = append(faultSamples, map[string]any{"save": p.Name, "environment_answer": f.Fault, "operations": f.Ops, "save_returned": f.SaveErr, "images": f.Images, "verdict": f.Verdict})
+			}
 		}
 		for _, im := range run.Images {
 			if im.Partial >= 0 {
@@ -626,13 +670,16 @@ func c45(c *report.Check) {
 	c.Set("bad_images", bad)
 	c.Set("second_saves_on_recovered_images", secondSaves)
 	c.Set("second_save_crash_images", secondImages)
+	c.Set("fault_injected_saves", faultRuns)
+	c.Set("fault_injected_save_crash_images", faultImages)
+	c.Set("fault_injection_samples", faultSamples)
 	c.Set("config_pairs", len(pairs))
 	c.Set("distinct_nontrivial", dist.N())
 	split := "at 1, 1/4, 1/2, 3/4 and n-1 bytes"
 	if c.Thorough() {
 		split = "at every byte"
 	}
-	c.Set("rule", "for each (previous, new) configuration pair the real writer runs once with os replaced by engine/vos; before every mutating file operation (create/truncate, write, sync, close, rename, remove, ...) the directory is copied = crash after the previous operation (process-crash semantics: completed operations survive); every write is additionally cut "+split+"; plus the image after the save completed; each image is read with the real client.NewConfig and must equal the previous or the new configuration (version, apex, certificate, key, all tunnel fields); then, on top of EVERY such crash image (a restarted client that recovered previous-or-new), a complete save of a third configuration - once a shorter, once a longer one - is run with its own crash images at every operation boundary (thorough: also writes cut at 5 offsets): each must read as the recovered or the third configuration and the completed save as exactly the third; class = (pair, operation kind, boundary/inside, verdict) and (pair, third, ok/bad)")
+	c.Set("rule", "for each (previous, new) configuration pair the real writer runs once with os replaced by engine/vos; before every mutating file operation (create/truncate, write, sync, close, rename, remove, ...) the directory is copied = crash after the previous operation (process-crash semantics: completed operations survive); every write is additionally cut "+split+"; plus the image after the save completed; each image is read with the real client.NewConfig and must equal the previous or the new configuration (version, apex, certificate, key, all tunnel fields); then, on top of EVERY such crash image (a restarted client that recovered previous-or-new), a complete save of a third configuration - once a shorter, once a longer one - is run with its own crash images at every operation boundary (thorough: also writes cut at 5 offsets): each must read as the recovered or the third configuration and the completed save as exactly the third; environment answers: every save of a pair (thorough: also every second save on a boundary image) is repeated once per single failing operation - opening/creating the temporary file fails with EACCES / ENOSPC / EISDIR, each write fails with ENOSPC, the sync fails with EIO, the rename fails with EACCES (engine/vos FailOp) - with crash images at every operation boundary before and after the failure; each image must read as the old or the new configuration, a save that returned nil must have left the new one; class = (pair, operation kind, boundary/inside, verdict), (pair, third, ok/bad) and (pair, failing operation class, save result, ok/bad)")
 	c.Set("operation_sequences", opSeqs)
 	c.Set("samples", dist.Samples)
 	c.Set("exhaustive", true)
